@@ -491,6 +491,20 @@ func (m *mbuf) read() {
 	}
 }
 
+// poll: a read (and a peek) of the EMPTY buffer must fail and change nothing; the history goes on
+func (m *mbuf) poll(r *Rng) {
+	if m.pending() != 0 {
+		return
+	}
+	k := r.Intn(nKinds)
+	pr, _ := Catch(func() { readRaw(m.b, k) })
+	pp, _ := Catch(func() { peekRaw(m.b, k) })
+	m.n += 2
+	if (!pr || !pp || m.b.Len() != 0) && m.fail == 0 {
+		m.fail = 3
+	}
+}
+
 func (m *mbuf) fillTo(r *Rng, bytes int) {
 	for m.expect < bytes && m.fail == 0 {
 		m.write(r)
@@ -521,6 +535,9 @@ func phases(seed uint64, big int) (code int, phase int, checked int64) {
 				m.fillTo(r, m.expect+r.Intn(200))
 			}
 			m.drain()
+			if r.Bool() {
+				m.poll(r)
+			}
 			// ordinary traffic right after the drain
 			for j := r.Range(1, 20); j > 0 && m.fail == 0; j-- {
 				m.write(r)
@@ -556,6 +573,7 @@ func multiStep(r *Rng, ms []*mbuf, big bool) {
 		for j := r.Range(1, 4); j > 0 && m.pending() > 0; j-- {
 			m.read()
 		}
+		m.poll(r) // when that emptied the buffer (or it was empty): a failed read, then life goes on
 	case c < 17:
 		m.drain()
 	case c == 17:
@@ -831,8 +849,7 @@ func holds(ws []tv) (bool, string) {
 	var b qnet.Buffer
 	for _, t := range ws {
 		before := b.Len()
-		write(&b, t.k, t.v)
-		if b.Len()-before != widthOf(t.k) {
+		if p, _ := Catch(func() { write(&b, t.k, t.v) }); p || b.Len()-before != widthOf(t.k) {
 			return false, "width"
 		}
 	}
@@ -902,6 +919,11 @@ func gen(a Args, out *Out) {
 			emit("stale-peek", ops)
 		}
 	}
+	// poll until data: a failed read (and peek) of the empty buffer, then the value arrives
+	for k := 0; k < nKinds; k++ {
+		t, u := tv{k, genValue(rng, k, out)}, tv{k, genValue(rng, k, out)}
+		emit("poll", []Sx{rop(k), pop(k), rop(rng.Intn(nKinds)), wop(t), pop(k), rop(k), rop(k), wop(u), wop(t), rop(k), rop(k), pop(k), Ints(3)})
+	}
 	for _, fill := range []int{8, 16, 32, 64} {
 		for nread := 1; nread <= 2; nread++ {
 			var ops []Sx
@@ -945,6 +967,8 @@ func gen(a Args, out *Out) {
 					t := w[r.Intn(len(w))]
 					q = append(q, t)
 					ops = append(ops, wop(t))
+				case c < 8 && len(q) == 0:
+					ops = append(ops, rop(r.Intn(nKinds))) // nothing there: fails, changes nothing
 				case c < 8 && len(q) > 0:
 					if r.Chance(1, 3) {
 						ops = append(ops, pop(q[0].k))
@@ -975,6 +999,9 @@ func gen(a Args, out *Out) {
 			for next < len(w) || pending > 0 {
 				for r.Chance(1, 2) {
 					ops = append(ops, pop(r.Intn(nKinds)))
+				}
+				if pending == 0 && r.Chance(1, 3) {
+					ops = append(ops, rop(r.Intn(nKinds)))
 				}
 				if next < len(w) && (pending == 0 || r.Bool()) {
 					ops = append(ops, wop(w[next]))
@@ -1053,6 +1080,12 @@ func gen(a Args, out *Out) {
 			pending := 0
 			next := 0
 			for next < len(w) || pending > 0 {
+				if pending == 0 && r.Chance(1, 3) { // poll an empty buffer: fails, then the history goes on
+					ops = append(ops, rop(r.Intn(nKinds)))
+					if r.Bool() {
+						ops = append(ops, pop(r.Intn(nKinds)))
+					}
+				}
 				if next < len(w) && (pending == 0 || r.Bool()) {
 					ops = append(ops, wop(w[next]))
 					next++
